@@ -12,15 +12,16 @@ import (
 
 // concWorld is the W1 world used by the concurrency properties (C04, C15) and reused by others.
 type concWorld struct {
-	rc     *RunCtx
-	t      *testing.T
-	pop    *Population
-	s      *Sched
-	inst   *Instance
-	ledger *Ledger
-	ops    []*Op
-	res    []*OpResult
-	tasks  []*Task
+	rc          *RunCtx
+	t           *testing.T
+	pop         *Population
+	s           *Sched
+	inst        *Instance
+	ledger      *Ledger
+	ops         []*Op
+	res         []*OpResult
+	tasks       []*Task
+	incarnation int
 }
 
 func newW1(t *testing.T, rc *RunCtx, cfg SchedCfg, plan *FaultPlan) *concWorld {
@@ -46,8 +47,9 @@ func (w *concWorld) submit(ops []*Op) {
 		idx := len(w.ops)
 		w.ops = append(w.ops, o)
 		w.res = append(w.res, nil)
-		t := w.s.Spawn(fmt.Sprintf("op%d:%s", i, o.Kind), w.inst, func(t *Task) {
-			w.res[idx] = o.Exec(w.inst)
+		inst := w.inst
+		t := w.s.Spawn(fmt.Sprintf("op%d:%s", i, o.Kind), inst, func(t *Task) {
+			w.res[idx] = o.Exec(inst)
 		})
 		w.tasks = append(w.tasks, t)
 	}
@@ -341,7 +343,7 @@ func runConc(t *testing.T, rc *RunCtx, prop string) {
 	for _, o := range ops {
 		budget += 14 + 8*len(o.Entries)
 	}
-	w := newW1(t, rc, SchedCfg{StayBias: stay, MaxSteps: 8 * budget, DeadlockProperty: "C15"}, nil)
+	w := newW1(t, rc, SchedCfg{StayBias: stay, MaxSteps: 8 * budget, DeadlockProperty: prop}, nil)
 	defer w.close()
 	w.submit(ops)
 	outcome := w.s.Run()
